@@ -105,10 +105,10 @@ export function* generate({ tier, seed }) {
   }
   // the *Inner families draw their in-list distractors at random: repeat them
   const innerFamilies = stmts.filter((x) => x.endsWith('Inner'));
-  const nInner = tier === 'quick' ? 40 : 400;
+  const nInner = tier === 'quick' ? 150 : 2000;
   for (const s of innerFamilies) for (let k = 0; k < nInner; k++) yield emit([s], [rng.pick(ds)], [rng.pick(ds)], rng.pick(OPTS));
   // random pairs of statements with several distractors
-  const nPairs = tier === 'quick' ? 1500 : 20000;
+  const nPairs = tier === 'quick' ? 6000 : 100000;
   for (let i = 0; i < nPairs; i++) {
     const a = rng.pick(stmts); let b = rng.pick(stmts);
     // two statements that declare the same module-level names cannot coexist
